@@ -52,18 +52,8 @@ Proof.
     cbn [spell_base] in Hb. cbn [spell_u spell]. destruct args as [|o [|nm r]]; try reflexivity. rewrite Hb. reflexivity.
 Qed.
 
-Lemma inner_cfc_nil : forall v, CFC v -> inner false v = [].
-Proof.
-  induction v using node_children_ind. rename H into IH. intros Hcf.
-  pose proof (all_here _ _ Hcf) as Hl.
-  destruct v; simpl in Hl; try contradiction; try reflexivity.
-  - cbn [inner]. inversion IH as [|? ? H1 _]; subst.
-    destruct (is_nameable v); [apply H1; apply (cfc_child _ _ Hcf); left; reflexivity|reflexivity].
-  - cbn [inner]. inversion IH as [|? ? H1 _]; subst. rewrite app_nil_r.
-    destruct (is_nameable v1); [apply H1; apply (cfc_child _ _ Hcf); left; reflexivity|reflexivity].
-  - cbn [inner]. inversion IH as [|? ? H1 _]; subst.
-    destruct (is_nameable v); [apply H1; apply (cfc_child _ _ Hcf); left; reflexivity|reflexivity].
-Qed.
+Lemma inner_cfc_other v : CFC v -> is_nameable v = false -> inner false v = [].
+Proof. intros H Hn. pose proof (all_here _ _ H) as Hl. destruct v; simpl in Hl; try contradiction; try discriminate; reflexivity. Qed.
 
 Lemma plain_not_attr_call n : plain n = true -> is_attr_call n = false.
 Proof.
@@ -158,30 +148,67 @@ Section Calls.
         eapply call_reported_ext; [|apply Hcl; exact Hin]. apply mono_mapM_. intros z. apply mono_V.
   Qed.
 
-  (* attribute / subscript / starred *)
-  Lemma compound_goodc c n v :
-    plain n = true -> (is_nameable v = false -> goodc c v) ->
+  (* what an action does in scope chain c: ends normally, leaves the chain alone, reports the gets and calls of L *)
+  Definition acts (c : ctx) (m : M unit) (L : list occ) : Prop :=
     forall s, v_ctx s = c ->
-      fst (compound_body n v Load (V v) s) = Ok tt /\ v_ctx (snd (compound_body n v Load (V v) s)) = c
-      /\ reported (spell n) (snd (compound_body n v Load (V v) s))
-      /\ (is_nameable v = false ->
-          (forall nm, In (AGet, nm) (occs false v) -> reported nm (snd (compound_body n v Load (V v) s)))
-          /\ (forall nm, In (ACall, nm) (occs false v) -> call_reported nm (snd (compound_body n v Load (V v) s)))).
+      fst (m s) = Ok tt /\ v_ctx (snd (m s)) = c
+      /\ (forall nm, In (AGet, nm) L -> reported nm (snd (m s)))
+      /\ (forall nm, In (ACall, nm) L -> call_reported nm (snd (m s))).
+
+  Lemma goodc_acts c n : goodc c n <-> acts c (V n) (occs false n).
+  Proof. split; intros H; exact H. Qed.
+
+  Lemma acts_ret c : acts c (ret tt) [].
+  Proof. intros s Hc. repeat split; auto; intros nm []. Qed.
+
+  Lemma acts_weaken c m L L' : (forall o, In o L' -> In o L) -> acts c m L -> acts c m L'.
+  Proof. intros Hi H s Hc. destruct (H s Hc) as (H1 & H2 & H3 & H4). repeat split; auto. Qed.
+
+  Lemma acts_bind c m1 m2 L1 L2 : acts c m1 L1 -> mono m2 -> acts c m2 L2 -> acts c (m1 ;;; m2) (L1 ++ L2).
   Proof.
-    intros Hp Hv s Hc. unfold compound_body.
+    intros A1 Hm A2 s Hc. destruct (A1 s Hc) as (H1 & H2 & H3 & H4). rewrite (bind_ok _ _ s tt H1).
+    destruct (A2 (snd (m1 s)) H2) as (K1 & K2 & K3 & K4). repeat split; auto.
+    - intros nm Hin. apply in_app_or in Hin as [Hin|Hin]; [|exact (K3 nm Hin)].
+      eapply reported_ext; [apply Hm | exact (H3 nm Hin)].
+    - intros nm Hin. apply in_app_or in Hin as [Hin|Hin]; [|exact (K4 nm Hin)].
+      eapply call_reported_ext; [apply Hm | exact (H4 nm Hin)].
+  Qed.
+
+  Lemma mono_VL' l : mono (VL l).
+  Proof. apply mono_mapM_. intros z. apply mono_V. Qed.
+
+  Lemma mono_spine_V m : mono (spine_with V m).
+  Proof. apply mono_spine. apply visit_retval_mono. Qed.
+
+  Lemma VL_acts c l : Forall (goodc c) l -> acts c (VL l) (flat_map (occs false) l).
+  Proof.
+    intros H s Hc. destruct (VL_goodc c l H s Hc) as (H1 & H2 & H3 & H4). repeat split; auto.
+    - intros nm Hin. apply in_flat_map in Hin as (x & Hx & Hin). exact (H3 x nm Hx Hin).
+    - intros nm Hin. apply in_flat_map in Hin as (x & Hx & Hin). exact (H4 x nm Hx Hin).
+  Qed.
+
+  (* attribute / subscript / starred: Lv = what visiting v reports, L2 = what the visit of the slices reports *)
+  Lemma compound_acts c n v m2 Lv L2 :
+    plain n = true -> (is_nameable v = false -> acts c (V v) Lv) -> mono m2 -> acts c m2 L2 ->
+    acts c (compound_body n v Load (V v) m2) ((AGet, spell n) :: (if is_nameable v then [] else Lv) ++ L2).
+  Proof.
+    intros Hp Hv Hm2 A2 s Hc. unfold compound_body.
     destruct (get_and_verify_cf n Load s Hp) as [Hok Hext]. rewrite (bind_ok _ _ s _ Hok).
     pose proof (gv_ctx n Load s Hp) as Hc1. rewrite Hc in Hc1.
-    set (s1 := snd (get_and_verify_name n Load s)) in *.
-    destruct (is_nameable v) eqn:En.
-    - unfold bind, ret. simpl. split; [reflexivity|]. split; [exact Hc1|]. split.
-      + exists (spell_base n). apply rmem_radd_self.
-      + intros Hfalse; discriminate Hfalse.
-    - destruct (Hv eq_refl s1 Hc1) as (Hok2 & Hctx2 & Hg2 & Hcl2). rewrite (bind_ok _ _ s1 tt Hok2). simpl.
-      split; [reflexivity|]. split; [exact Hctx2|]. split.
-      + exists (spell_base n). apply rmem_radd_self.
-      + intros _. split.
-        * intros nm Hin. destruct (Hg2 nm Hin) as (b & Hb). exists b. apply rmem_radd. exact Hb.
-        * intros nm Hin. apply (Hcl2 nm Hin).
+    set (s1 := snd (get_and_verify_name n Load s)) in *. cbn [fst snd].
+    assert (A1 : acts c (if is_nameable v then ret tt else V v) (if is_nameable v then [] else Lv)).
+    { destruct (is_nameable v); [apply acts_ret | exact (Hv eq_refl)]. }
+    destruct (acts_bind c _ _ _ _ A1 Hm2 A2 s1 Hc1) as (H1 & H2 & H3 & H4).
+    match goal with |- context [bind ?a (fun _ => bind ?b ?k)] => change (bind a (fun _ => bind b k)) with (bind (bind a (fun _ => b)) k) end || idtac.
+    unfold bind in *. destruct ((if is_nameable v then ret tt else V v) s1) as [o1 t1] eqn:E1.
+    destruct o1; cbn [fst snd] in *; try discriminate H1.
+    destruct (m2 t1) as [o2 t2] eqn:E2. cbn [fst snd] in *. destruct o2; try discriminate H1.
+    cbn [update_results add_get fst snd v_ctx v_gets v_calls].
+    repeat split; auto.
+    - intros nm [Hin|Hin].
+      + injection Hin as <-. exists (spell_base n). apply rmem_radd_self.
+      + destruct (H3 nm Hin) as (b & Hb). exists b. apply rmem_radd. exact Hb.
+    - intros nm [Hin|Hin]; [discriminate Hin|]. exact (H4 nm Hin).
   Qed.
 
   Lemma arg_names_ok args s :
@@ -246,100 +273,120 @@ Section Calls.
       rewrite existsb_app. simpl. rewrite String.eqb_refl. rewrite Bool.orb_true_r. reflexivity.
   Qed.
 
-  Theorem loads_with_calls_are_complete c : forall n, CFC n -> NoCustom c n -> goodc c n.
+  Definition slices_goodc (c : ctx) (m : node) : Prop := acts c (spine_with V m) (inner false m).
+
+  Theorem loads_with_calls_are_complete_and_slices c : forall n, CFC n -> NoCustom c n -> goodc c n /\ slices_goodc c n.
   Proof.
     induction n using node_children_ind. rename H into IH. intros Hcf Hnc.
     pose proof (all_here _ _ Hcf) as Hl. pose proof (cfc_plain n Hcf) as Hp.
-    assert (Hkids : Forall (goodc c) (children n)).
+    assert (Hkids2 : Forall (fun x => goodc c x /\ slices_goodc c x) (children n)).
     { rewrite Forall_forall in IH |- *. intros x Hx. apply IH; [exact Hx|apply (cfc_child _ _ Hcf Hx)|apply (nocustom_child _ _ _ Hnc Hx)]. }
+    assert (Hkids : Forall (goodc c) (children n)).
+    { rewrite Forall_forall in Hkids2 |- *. intros x Hx. exact (proj1 (Hkids2 x Hx)). }
+    assert (Htriv : forall m, spine_with V m = ret tt -> inner false m = [] -> slices_goodc c m).
+    { intros m E1 E2. unfold slices_goodc. rewrite E1, E2. apply acts_ret. }
+    (* the slices under a child v, as the parent's specification lists them *)
+    assert (Hunder : forall v, In v (children n) -> acts c (spine_with V v) (if is_nameable v then inner false v else [])).
+    { intros v Hv. rewrite Forall_forall in Hkids2. destruct (Hkids2 v Hv) as [_ Hs].
+      destruct (is_nameable v) eqn:En; [exact Hs|].
+      eapply acts_weaken; [|exact Hs]. intros o []. }
     destruct n; simpl in Hl; try contradiction.
     - (* Name *)
-      destruct c0; try contradiction. intros s Hc. rewrite visit_name.
+      destruct c0; try contradiction. split; [|apply Htriv; reflexivity]. intros s Hc. rewrite visit_name.
       destruct (get_and_verify_cf (EName id Load p) Load s Hp) as [Hok Hext]. rewrite (bind_ok _ _ s _ Hok). simpl.
       pose proof (gv_ctx (EName id Load p) Load s Hp) as Hc1. repeat split; auto; [congruence| |].
       + intros nm [H|[]]. cbn [kind_of_ctx] in H. injection H as <-. exists id. apply rmem_radd_self.
       + intros nm [H|[]]. discriminate H.
     - (* Attribute *)
-      destruct c0; try contradiction. intros s Hc. rewrite visit_attr.
-      simpl in Hkids. pose proof (Forall_inv Hkids) as Hv.
-      destruct (compound_goodc c (EAttr n a Load p) n Hp (fun _ => Hv) s Hc) as (H1 & H2 & H3 & H4).
-      repeat split; auto.
-      + intros nm Hin. cbn [occs] in Hin. rewrite (kf_c10_plain _ Hp) in Hin.
-        apply in_app_or in Hin. destruct Hin as [[H|[]]|Hin].
-        * rewrite (spell_u_spell_c _ Hcf) in H. cbn [kind_of_ctx] in H. injection H as <-. exact H3.
-        * destruct (is_nameable n) eqn:En; [rewrite (inner_cfc_nil n (cfc_child _ _ Hcf (or_introl eq_refl))) in Hin; destruct Hin|].
-          apply (proj1 (H4 eq_refl) nm Hin).
-      + intros nm Hin. cbn [occs] in Hin. rewrite (kf_c10_plain _ Hp) in Hin.
-        apply in_app_or in Hin. destruct Hin as [[H|[]]|Hin]; [discriminate H|].
-        destruct (is_nameable n) eqn:En; [rewrite (inner_cfc_nil n (cfc_child _ _ Hcf (or_introl eq_refl))) in Hin; destruct Hin|].
-        apply (proj2 (H4 eq_refl) nm Hin).
+      destruct c0; try contradiction.
+      simpl in Hkids. pose proof (Forall_inv Hkids) as Hv. pose proof (Hunder n (or_introl eq_refl)) as Hs.
+      split.
+      + apply goodc_acts. rewrite visit_attr.
+        eapply acts_weaken; [|apply (compound_acts c (EAttr n a Load p) n _ _ _ Hp (fun _ => Hv) (mono_spine_V n) Hs)].
+        intros o Ho. cbn [occs] in Ho. rewrite (kf_c10_plain _ Hp), (spell_u_spell_c _ Hcf) in Ho.
+        destruct Ho as [<-|Ho]; [left; reflexivity|]. right.
+        destruct (is_nameable n); [exact Ho | apply in_or_app; left; exact Ho].
+      + unfold slices_goodc. cbn [spine_with inner]. eapply acts_weaken; [|exact Hs].
+        intros o Ho. destruct (is_nameable n); [exact Ho | destruct Ho].
     - (* Subscript *)
-      destruct c0; try contradiction. intros s Hc. rewrite visit_sub.
-      simpl in Hkids. pose proof (Forall_inv Hkids) as Hv.
-      destruct (compound_goodc c (ESub n1 n2 Load p) n1 Hp (fun _ => Hv) s Hc) as (H1 & H2 & H3 & H4).
-      repeat split; auto.
-      + intros nm Hin. cbn [occs] in Hin. rewrite (kf_c10_plain _ Hp), app_nil_r in Hin.
-        apply in_app_or in Hin. destruct Hin as [[H|[]]|Hin].
-        * rewrite (spell_u_spell_c _ Hcf) in H. cbn [kind_of_ctx] in H. injection H as <-. exact H3.
-        * destruct (is_nameable n1) eqn:En; [rewrite (inner_cfc_nil n1 (cfc_child _ _ Hcf (or_introl eq_refl))) in Hin; destruct Hin|].
-          apply (proj1 (H4 eq_refl) nm Hin).
-      + intros nm Hin. cbn [occs] in Hin. rewrite (kf_c10_plain _ Hp), app_nil_r in Hin.
-        apply in_app_or in Hin. destruct Hin as [[H|[]]|Hin]; [discriminate H|].
-        destruct (is_nameable n1) eqn:En; [rewrite (inner_cfc_nil n1 (cfc_child _ _ Hcf (or_introl eq_refl))) in Hin; destruct Hin|].
-        apply (proj2 (H4 eq_refl) nm Hin).
+      destruct c0; try contradiction.
+      simpl in Hkids. pose proof (Forall_inv Hkids) as Hv. pose proof (Forall_inv (Forall_inv_tail Hkids)) as Hgsl.
+      pose proof (Hunder n1 (or_introl eq_refl)) as Hs.
+      assert (Hsl : acts c (V n2 ;;; spine_with V n1) (occs false n2 ++ (if is_nameable n1 then inner false n1 else []))).
+      { apply acts_bind; [exact Hgsl | apply mono_spine_V | exact Hs]. }
+      assert (Hm2 : mono (V n2 ;;; spine_with V n1)).
+      { apply mono_bind; [apply mono_V | intros; apply mono_spine_V]. }
+      split.
+      + apply goodc_acts. rewrite visit_sub.
+        eapply acts_weaken; [|apply (compound_acts c (ESub n1 n2 Load p) n1 _ _ _ Hp (fun _ => Hv) Hm2 Hsl)].
+        intros o Ho. cbn [occs] in Ho. rewrite (kf_c10_plain _ Hp), (spell_u_spell_c _ Hcf) in Ho.
+        destruct Ho as [<-|Ho]; [left; reflexivity|]. right. cbn [app] in Ho.
+        apply in_app_or in Ho as [Ho|Ho].
+        * destruct (is_nameable n1); [apply in_or_app; right; apply in_or_app; right; exact Ho | apply in_or_app; left; exact Ho].
+        * apply in_or_app. right. apply in_or_app. left. exact Ho.
+      + unfold slices_goodc. cbn [spine_with inner]. eapply acts_weaken; [|exact Hsl].
+        intros o Ho. apply in_app_or in Ho as [Ho|Ho]; apply in_or_app; [right | left; exact Ho].
+        destruct (is_nameable n1); [exact Ho | destruct Ho].
     - (* Starred *)
-      destruct c0; try contradiction. intros s Hc. rewrite visit_star.
-      simpl in Hkids. pose proof (Forall_inv Hkids) as Hv.
-      destruct (compound_goodc c (EStar n Load p) n Hp (fun _ => Hv) s Hc) as (H1 & H2 & H3 & H4).
-      repeat split; auto.
-      + intros nm Hin. cbn [occs] in Hin. rewrite (kf_c10_plain _ Hp) in Hin.
-        apply in_app_or in Hin. destruct Hin as [[H|[]]|Hin].
-        * rewrite (spell_u_spell_c _ Hcf) in H. cbn [kind_of_ctx] in H. injection H as <-. exact H3.
-        * destruct (is_nameable n) eqn:En; [rewrite (inner_cfc_nil n (cfc_child _ _ Hcf (or_introl eq_refl))) in Hin; destruct Hin|].
-          apply (proj1 (H4 eq_refl) nm Hin).
-      + intros nm Hin. cbn [occs] in Hin. rewrite (kf_c10_plain _ Hp) in Hin.
-        apply in_app_or in Hin. destruct Hin as [[H|[]]|Hin]; [discriminate H|].
-        destruct (is_nameable n) eqn:En; [rewrite (inner_cfc_nil n (cfc_child _ _ Hcf (or_introl eq_refl))) in Hin; destruct Hin|].
-        apply (proj2 (H4 eq_refl) nm Hin).
+      destruct c0; try contradiction.
+      simpl in Hkids. pose proof (Forall_inv Hkids) as Hv. pose proof (Hunder n (or_introl eq_refl)) as Hs.
+      split.
+      + apply goodc_acts. rewrite visit_star.
+        eapply acts_weaken; [|apply (compound_acts c (EStar n Load p) n _ _ _ Hp (fun _ => Hv) (mono_spine_V n) Hs)].
+        intros o Ho. cbn [occs] in Ho. rewrite (kf_c10_plain _ Hp), (spell_u_spell_c _ Hcf) in Ho.
+        destruct Ho as [<-|Ho]; [left; reflexivity|]. right.
+        destruct (is_nameable n); [exact Ho | apply in_or_app; left; exact Ho].
+      + unfold slices_goodc. cbn [spine_with inner]. eapply acts_weaken; [|exact Hs].
+        intros o Ho. destruct (is_nameable n); [exact Ho | destruct Ho].
     - (* Call *)
-      intros s Hc. rewrite visit_call.
-      assert (Hargs : Forall (fun a => plain a = true) args).
-      { apply Forall_forall. intros a Ha. apply cfc_plain. apply (cfc_child _ _ Hcf). simpl. right. apply in_or_app. left. exact Ha. }
-      assert (Hkws : Forall (fun k => match k with EKw _ v => plain v = true | _ => True end) kws).
-      { apply Forall_forall. intros k Hk. destruct k; auto. apply cfc_plain.
-        apply (cfc_child (EKw arg k)); [apply (cfc_child _ _ Hcf); simpl; right; apply in_or_app; right; exact Hk|left; reflexivity]. }
-      pose proof (all_here _ _ Hnc) as Hsite. simpl in Hsite. rewrite <- Hc in Hsite.
-      destruct (call_body_plain n args kws p (VL args ;;; VL kws) s Hp Hsite Hargs Hkws) as (s3 & Heq & Hc3 & Hext3 & Hrep3).
-      rewrite Heq. rewrite Hc in Hc3.
-      simpl in Hkids. pose proof (Forall_inv_tail Hkids) as Hrest. apply Forall_app in Hrest. destruct Hrest as [Hga Hgk].
-      destruct (VL_goodc c args Hga s3 Hc3) as (Ha1 & Ha2 & Ha3 & Ha4). rewrite (bind_ok _ _ s3 tt Ha1).
-      destruct (VL_goodc c kws Hgk (snd (VL args s3)) Ha2) as (Hk1 & Hk2 & Hk3 & Hk4).
-      assert (Hmk : mono (VL kws)) by (apply mono_mapM_; intros z; apply mono_V).
-      assert (Hma : mono (VL args)) by (apply mono_mapM_; intros z; apply mono_V).
-      split; [exact Hk1|]. split; [exact Hk2|]. split.
-      + intros nm Hin. cbn [occs] in Hin. rewrite (plain_not_attr_call _ Hp), (kf_c10_plain _ Hp), !olist_flat_map in Hin.
-        repeat (apply in_app_or in Hin; destruct Hin as [Hin|Hin]);
-          first [ solve [destruct Hin as [H|[]]; discriminate H]
-                | solve [destruct Hin]
-                | (apply in_flat_map in Hin; destruct Hin as (x & Hx & Hin);
-                   first [ solve [eapply reported_ext; [apply Hmk|apply (Ha3 x nm Hx Hin)]] | solve [apply (Hk3 x nm Hx Hin)] ]) ].
-      + intros nm Hin. cbn [occs] in Hin. rewrite (plain_not_attr_call _ Hp), (kf_c10_plain _ Hp), !olist_flat_map in Hin.
-        repeat (apply in_app_or in Hin; destruct Hin as [Hin|Hin]);
-          first [ solve [destruct Hin as [H|[]]; rewrite (spell_u_spell_c _ Hcf) in H; injection H as <-;
-                         eapply call_reported_ext; [apply Hmk|]; eapply call_reported_ext; [apply Hma|]; exact Hrep3]
-                | solve [destruct Hin]
-                | (apply in_flat_map in Hin; destruct Hin as (x & Hx & Hin);
-                   first [ solve [eapply call_reported_ext; [apply Hmk|apply (Ha4 x nm Hx Hin)]] | solve [apply (Hk4 x nm Hx Hin)] ]) ].
+      pose proof (Hunder n (or_introl eq_refl)) as Hs.
+      split.
+      + intros s Hc. rewrite visit_call.
+        assert (Hargs : Forall (fun a => plain a = true) args).
+        { apply Forall_forall. intros a Ha. apply cfc_plain. apply (cfc_child _ _ Hcf). simpl. right. apply in_or_app. left. exact Ha. }
+        assert (Hkws : Forall (fun k => match k with EKw _ v => plain v = true | _ => True end) kws).
+        { apply Forall_forall. intros k Hk. destruct k; auto. apply cfc_plain.
+          apply (cfc_child (EKw arg k)); [apply (cfc_child _ _ Hcf); simpl; right; apply in_or_app; right; exact Hk|left; reflexivity]. }
+        pose proof (all_here _ _ Hnc) as Hsite. simpl in Hsite. rewrite <- Hc in Hsite.
+        destruct (call_body_plain n args kws p (VL args ;;; VL kws ;;; spine_with V n) s Hp Hsite Hargs Hkws) as (s3 & Heq & Hc3 & Hext3 & Hrep3).
+        rewrite Heq. rewrite Hc in Hc3.
+        simpl in Hkids. pose proof (Forall_inv_tail Hkids) as Hrest. apply Forall_app in Hrest. destruct Hrest as [Hga Hgk].
+        assert (Hm : mono (VL args ;;; VL kws ;;; spine_with V n)).
+        { apply mono_bind; [apply mono_VL'|]. intros. apply mono_bind; [apply mono_VL' | intros; apply mono_spine_V]. }
+        assert (A : acts c (VL args ;;; VL kws ;;; spine_with V n)
+                         (flat_map (occs false) args ++ flat_map (occs false) kws ++ (if is_nameable n then inner false n else []))).
+        { apply acts_bind; [apply VL_acts; exact Hga | apply mono_bind; [apply mono_VL' | intros; apply mono_spine_V] |].
+          apply acts_bind; [apply VL_acts; exact Hgk | apply mono_spine_V | exact Hs]. }
+        destruct (A s3 Hc3) as (A1 & A2 & A3 & A4).
+        split; [exact A1|]. split; [exact A2|]. split.
+        * intros nm Hin. cbn [occs] in Hin. rewrite (plain_not_attr_call _ Hp), (kf_c10_plain _ Hp), !olist_flat_map in Hin.
+          destruct Hin as [Hin|Hin]; [discriminate Hin|]. cbn [app] in Hin. apply A3.
+          apply in_app_or in Hin as [Hin|Hin]; [apply in_or_app; left; exact Hin|].
+          apply in_app_or in Hin as [Hin|Hin]; apply in_or_app; right; apply in_or_app; [left; exact Hin | right].
+          destruct (is_nameable n); [exact Hin | destruct Hin].
+        * intros nm Hin. cbn [occs] in Hin. rewrite (plain_not_attr_call _ Hp), (kf_c10_plain _ Hp), !olist_flat_map in Hin.
+          destruct Hin as [Hin|Hin].
+          -- rewrite (spell_u_spell_c _ Hcf) in Hin. injection Hin as <-.
+             eapply call_reported_ext; [apply Hm | exact Hrep3].
+          -- cbn [app] in Hin. apply A4.
+             apply in_app_or in Hin as [Hin|Hin]; [apply in_or_app; left; exact Hin|].
+             apply in_app_or in Hin as [Hin|Hin]; apply in_or_app; right; apply in_or_app; [left; exact Hin | right].
+             destruct (is_nameable n); [exact Hin | destruct Hin].
+      + unfold slices_goodc. cbn [spine_with inner]. eapply acts_weaken; [|exact Hs].
+        intros o Ho. cbn [app] in Ho. destruct (is_nameable n); [exact Ho | destruct Ho].
     - (* keyword argument *)
+      split; [|apply Htriv; reflexivity].
       intros s Hc. rewrite visit_kw. simpl in Hkids. pose proof (Forall_inv Hkids) as Hv.
       destruct (Hv s Hc) as (H1 & H2 & H3 & H4). repeat split; auto.
     - (* Constant *)
-      intros s Hc. rewrite visit_const. repeat split; auto; intros nm [].
+      split; [|apply Htriv; reflexivity]. intros s Hc. rewrite visit_const. repeat split; auto; intros nm [].
     - (* Tuple / List / Set *)
+      split; [|apply Htriv; reflexivity].
       intros s Hc. rewrite visit_seq. simpl in Hkids. destruct (VL_goodc c es Hkids s Hc) as (H1 & H2 & H3 & H4).
       repeat split; auto; intros nm Hin; cbn [occs] in Hin; rewrite olist_flat_map in Hin; apply in_flat_map in Hin;
         destruct Hin as (x & Hx & Hin); [apply (H3 x nm Hx Hin)|apply (H4 x nm Hx Hin)].
     - (* Dict *)
+      split; [|apply Htriv; reflexivity].
       intros s Hc. rewrite visit_dict. simpl in Hkids. apply Forall_app in Hkids. destruct Hkids as [Hks Hvs].
       destruct (VL_goodc c ks Hks s Hc) as (H1 & H2 & H3 & H4). rewrite (bind_ok _ _ s tt H1).
       destruct (VL_goodc c vs Hvs (snd (VL ks s)) H2) as (H5 & H6 & H7 & H8).
@@ -351,9 +398,12 @@ Section Calls.
       + eapply call_reported_ext; [apply Hmv|apply (H4 x nm Hx Hin)].
       + apply (H8 x nm Hx Hin).
     - (* any other node class *)
-      destruct binds; try contradiction.
+      destruct binds; try contradiction. split; [|apply Htriv; reflexivity].
       intros s Hc. rewrite visit_other. simpl in Hkids. destruct (VL_goodc c _ Hkids s Hc) as (H1 & H2 & H3 & H4).
       repeat split; auto; intros nm Hin; cbn [occs] in Hin; rewrite olist_flat_map in Hin; apply in_flat_map in Hin;
         destruct Hin as (x & Hx & Hin); [apply (H3 x nm Hx Hin)|apply (H4 x nm Hx Hin)].
   Qed.
+
+  Theorem loads_with_calls_are_complete c : forall n, CFC n -> NoCustom c n -> goodc c n.
+  Proof. intros n H1 H2. exact (proj1 (loads_with_calls_are_complete_and_slices c n H1 H2)). Qed.
 End Calls.
